@@ -70,6 +70,36 @@ Proof.
 Qed.
 Print Assumptions C10_table_clone_is_a_fresh_parse.
 
+(* ---- the kinds without shared mutable state: Cell, Column, any Element, and Tables at layer B.  A clone is the same value
+        (coordinates included) and, a call being a function of the object alone, the interleaved run on the pair IS the pair of the
+        two solo runs ---- *)
+Theorem C10_pair_commutes : forall (S Op : Type) (step : S -> Op -> S) (ops : list (bool * Op)) (a b : S),
+  prun2 step a b ops = (prun1 step a (pside true ops), prun1 step b (pside false ops)).
+Proof. exact (@product_commutes). Qed.
+Print Assumptions C10_pair_commutes.
+Theorem C10_cell_clone : forall (c : cellobj) (ops : list (bool * coop)),
+  co_clone c = c /\ prun2 co_step c (co_clone c) ops = (prun1 co_step c (pside true ops), prun1 co_step (co_clone c) (pside false ops)).
+Proof. intros. split; [apply co_clone_eq|apply product_commutes]. Qed.
+Print Assumptions C10_cell_clone.
+Theorem C10_column_clone : forall (c : colobj) (ops : list (bool * koop)),
+  ko_clone c = c /\ prun2 ko_step c (ko_clone c) ops = (prun1 ko_step c (pside true ops), prun1 ko_step (ko_clone c) (pside false ops)).
+Proof. intros. split; [apply ko_clone_eq|apply product_commutes]. Qed.
+Print Assumptions C10_column_clone.
+(* Table.clone at layer B = reparse: any interleaving of mutators, reads and live setters on the table and its clone is the pair
+   of the solo histories, and both sides stay coherent *)
+Theorem C10_table_pair : forall (b : bstate) (ops : list (bool * bop)), Coh b -> Forall (fun p => bop_ok (snd p)) ops ->
+  let step := fun s o => fst (tB_step s o) in
+  prun2 step b (reparse b) ops = (prun1 step b (pside true ops), prun1 step (reparse b) (pside false ops)) /\
+  Coh (prun1 step b (pside true ops)) /\ Coh (prun1 step (reparse b) (pside false ops)).
+Proof.
+  intros b ops Hc Hok. cbv zeta. split; [apply product_commutes|].
+  assert (Hs : forall s, Forall bop_ok (pside s ops)).
+  { intros s. unfold pside. apply Forall_forall. intros o Hin. apply in_map_iff in Hin. destruct Hin as ([s' o'] & <- & Hin).
+    apply filter_In in Hin. rewrite Forall_forall in Hok. exact (Hok _ (proj1 Hin)). }
+  split; [exact (coh_history _ b Hc (Hs true))|exact (coh_history _ (reparse b) (Coh_reparse b (proj1 Hc)) (Hs false))].
+Qed.
+Print Assumptions C10_table_pair.
+
 (* ---- refuted: a Row.clone that shares its _rmap list object (DESIGN Appendix C): append_cell on the clone changes the original's map ---- *)
 Theorem C10_shared_rmap_refuted : exists h r o, ok h r /\
   let '(h1, c) := ro_clone true h r in ro_view (fst (ro_step h1 c o)) r <> ro_view h1 r.
